@@ -169,7 +169,7 @@ func main() {
 		default:
 			res = vx.Interleave(bd, vx.Opt{NoSleep: true, MaxRuns: 3000000})
 		}
-		fmt.Printf("%s: runs=%d blocked=%d maxpts=%d exhaustive=%v in %v\n", spec, res.Runs, res.Blocked, res.MaxPoints, res.Exhaustive, time.Since(t0))
+		fmt.Printf("%s: runs=%d blocked=%d maxpts=%d memraces=%d exhaustive=%v in %v\n", spec, res.Runs, res.Blocked, res.MaxPoints, res.MemRaces, res.Exhaustive, time.Since(t0))
 		for _, o := range vx.SortedOutcomes(res.Outcomes) {
 			fmt.Printf("  %6d  %s\n", res.Outcomes[o], o)
 		}
